@@ -10,7 +10,7 @@ RULE = ('two families. (value) value recipe (strings with escapes, bytes, number
         'bundled styles (given as the class, by the bundled name, or as the default style set through set_default_style / set_default_config) x colour mode in {true colour, 256, 8}, written by cpprint(stream=StringIO, end=...). (doc) document '
         'term with annotate() carrying syntax tokens nested up to depth 3 and opaque non-token annotations inside/outside '
         'them (opaque objects, plain ints equal to Token members, unhashable values, None), text fragments ending in tabs / form feeds, laid out and written by colored_render_to_stream. Exhaustive: a fixed corpus x every style x every mode, and '
-        'every Token member alone; random: Hypothesis values/terms x styles. Oracle: an independent SGR decoder - text with '
+        'every Token member alone, and for every style a token the style may leave plain (punctuation, operator, variable name, escape) nested in a styled token; random: Hypothesis values/terms x styles. Oracle: an independent SGR decoder - text with '
         'escapes removed == plain rendering of the same SDoc stream (+ end); rendering raises for no style; for every '
         'character the decoded (fg, bg, bold, italic, underline) state == the state of the innermost enclosing Token '
         'annotation (SDoc push/pop structure; style.style_for_token through a name-derived token table; colorful as trusted '
